@@ -15,7 +15,7 @@ Everything is over-approximating: when a size cap is hit the answer is "unknown"
 """
 from math import gcd
 
-FM_CAP = 400          # max constraints during one refutation
+FM_CAP = 120          # max constraints during one refutation
 FM_VAR_CAP = 14       # max variables eliminated in one refutation
 
 
@@ -231,7 +231,7 @@ class Cons:
             if keep_bounds and bounds is not None and abs(a) == 1 and len(rest.terms) >= 2:
                 sol = (-rest) if a == 1 else rest       # var == sol
                 lo, hi = bounds
-                if lo is not None and lo > -(1 << 62):
+                if lo is not None and lo > -(1 << 62) and (lo != 0 or keep_bounds == "all"):
                     self.le.add(normalize(LinForm.constant(lo) - sol, "le"))
                 if hi is not None and hi < (1 << 62):
                     self.le.add(normalize(sol - hi, "le"))
@@ -350,6 +350,23 @@ class Cons:
 
     def _infeasible_with(self, extra, bounds_of):
         comp, les, eqs = self._component(extra.terms.keys())
+        if not les and not eqs:
+            return False      # only interval information: the caller's sup() test already covered it
+        if len(les) + len(eqs) > 28:
+            # keep the constraints closest to the query (by shared variables, then sparsity); dropping constraints is sound
+            qv = set(extra.terms)
+            near = set(qv)
+            for c in les + eqs:
+                if any(v in qv for v in c.terms):
+                    near.update(c.terms)
+
+            def rank(c):
+                return (-sum(1 for v in c.terms if v in qv), -sum(1 for v in c.terms if v in near), len(c.terms), abs(c.const) > (1 << 40))
+            les = sorted(les, key=rank)[:22]
+            eqs = sorted(eqs, key=rank)[:8]
+            comp = set(qv)
+            for c in les + eqs:
+                comp.update(c.terms)
         work = list(les) + [extra]
         for e in eqs:
             work.append(e)
@@ -445,7 +462,7 @@ def fm_infeasible(cons):
                 ups.append(c)
             else:
                 los.append(c)
-        if len(ups) * len(los) + len(rest) > FM_CAP * 4:
+        if len(ups) * len(los) + len(rest) > FM_CAP * 2:
             return False
         for u in ups:
             a = u.terms[var]
